@@ -150,6 +150,23 @@ def run(prop, tier, seed, args):
             else:
                 undecided.append((ob["ident"], f"solver: {ob['verdict']} {ob['note']}"))
 
+    # ---------------- frame condition of the functions under contract (every property): a function the contracts reason about one call at a time
+    # must not keep state across calls -- no write to module-level / class-level objects, no cache decorator, no shared default object,
+    # no state on the process-wide emitter objects.  (C19 checks this for the whole repository; here: the functions this property relies on.)
+    if not hasattr(mod, "extra_obligations") and not args.only:
+        from vf.pyvc import frame as _frame
+        under = _frame.call_closure(E.index, set(getattr(mod, "FUNCTIONS", [])) | set(functions) | {q for q in inlined if not q.startswith("vf.")})
+        classes = {q.rsplit(".", 1)[0] for q in under}
+        fsites = [st for st in _frame.analyse(E.index) if f"{st.module}.{st.func}" in under or f"{st.module}.{st.func.split('.')[0]}" in classes]
+        obligations += len(fsites)
+        for st in fsites:
+            if st.region in ("module", "unknown"):
+                rep.violation(f"frame#{st.module}.{st.func}:{st.lineno}", {"kind": "obligation-only", "obligation": st.ident(), "solver": "frame checker: a function under contract keeps state across calls",
+                                                                     "detail": st.as_dict()}, no_input=True)
+            else:
+                discharged += 1
+        per_ob.append({"name": "frame#site(functions under contract) x %d" % len(fsites), "verdict": "discharged by vf/pyvc/frame.py", "backend": "frame-checker", "ms": 0})
+
     # ---------------- obligations discharged by a purpose-built checker (frame checker), not by the SMT solver
     extra = None
     if hasattr(mod, "extra_obligations") and not args.only:
